@@ -82,6 +82,30 @@ static GLOBAL_CAPTURE: AtomicBool = AtomicBool::new(false);
 /// recorded in GLOBAL_PANICS; each case takes its own by that name, so concurrent shards do not mix them up.
 static MT_SERIAL: std::sync::atomic::AtomicU64 = std::sync::atomic::AtomicU64::new(1);
 
+/// At most a quarter of the cores' worth of real-time (multi-thread runtime) cases run at once, so that the shards do not
+/// oversubscribe the machine and distort each other's timing.
+static MT_RUNNING: Mutex<usize> = Mutex::new(0);
+static MT_CV: std::sync::Condvar = std::sync::Condvar::new();
+
+pub struct MtPermit;
+
+pub fn mt_permit() -> MtPermit {
+    let max = (std::thread::available_parallelism().map(|n| n.get()).unwrap_or(4) / 4).max(2);
+    let mut n = MT_RUNNING.lock().unwrap();
+    while *n >= max {
+        n = MT_CV.wait(n).unwrap();
+    }
+    *n += 1;
+    MtPermit
+}
+
+impl Drop for MtPermit {
+    fn drop(&mut self) {
+        *MT_RUNNING.lock().unwrap() -= 1;
+        MT_CV.notify_one();
+    }
+}
+
 /// A fresh multi-thread runtime whose worker threads carry a unique name; returns the runtime and the name prefix.
 pub fn mt_runtime(workers: usize) -> (tokio::runtime::Runtime, String) {
     let name = format!("vh-mt-{}-", MT_SERIAL.fetch_add(1, Ordering::SeqCst));
